@@ -2,6 +2,7 @@ import KcpVerif.Model.Kcp
 import KcpVerif.Lemmas.KcpFlush
 import KcpVerif.Lemmas.KcpLive
 import KcpVerif.Lemmas.KcpState
+import KcpVerif.Lemmas.KcpTimer
 /-! C02 — eventual delivery: a healed network always drains the backlog. -/
 namespace KcpVerif.Props
 open KcpVerif KcpVerif.Gen KcpVerif.Kcp
@@ -322,5 +323,35 @@ theorem C02_dead_link_only_flag (k : Kcp) (v : U32) :
 
 /-- non-vacuity: `state` IS written — a segment at the dead-link threshold sets it -/
 example : (emit { k := Kcp.new 1 } { xmit := 20 }).k.state = 0xFFFFFFFF#32 := by decide
+
+/-! ### `retx_armed` as an invariant of reachable states
+
+`Op`, `step`, `run` (Lemmas/KcpOps.lean): the state-changing operations with all their arguments.
+`TimerInv k` (Lemmas/KcpTimer.lean): every segment of `snd_buf` that has been sent (`xmit ≠ 0`) has
+`resendts = ts + rto`, and no segment of `snd_queue` has been sent. -/
+
+/-- `TimerInv` is kept by every operation with arbitrary arguments (any datagram bytes, any clock
+value, any buffer) and holds in every state reachable from `NewKCP`. -/
+theorem C02_retx_timer_invariant (conv : U32) (ops : List Op) (k : Kcp) (op : Op) :
+    (TimerInv k → TimerInv (step k op)) ∧ TimerInv (Kcp.new conv) ∧ TimerInv (run (Kcp.new conv) ops) :=
+  ⟨step_timer k op, new_timer conv, run_timer _ ops (new_timer conv)⟩
+
+/-- Hence in every reachable state, for every sent segment of `snd_buf` — un-acked or not — and every
+clock value `now` that is not before the segment's last transmission: the time left on its timer
+is `rto − (now − ts)`, so `itimediff resendts now ≤ rto`: a retransmission is never further away
+than the segment's own rto.  Side condition explicit: `rto < 2^31`. -/
+theorem C02_retx_armed_reachable (conv : U32) (ops : List Op) (s : Seg) (now : U32)
+    (hs : s ∈ (run (Kcp.new conv) ops).snd_buf) (hx : s.xmit ≠ 0) (hr : s.rto.toNat < 2 ^ 31)
+    (hn : itimediff now s.ts ≥ 0) :
+    s.resendts = s.ts + s.rto ∧
+    itimediff s.resendts now = (s.rto.toNat : Int) - itimediff now s.ts ∧
+    itimediff s.resendts now ≤ s.rto.toNat := by
+  have ht := (run_timer _ ops (new_timer conv)).1 s hs hx
+  exact ⟨ht, timer_remaining s now ht hr hn⟩
+
+/-- non-vacuity: Send, a first flush (cwnd is still 0: nothing admitted), a second full flush at 200:
+the segment is in `snd_buf` with `xmit = 1`, `ts = 200`, `rto = 200`, `resendts = 400` -/
+example : (run (Kcp.new 1) [.send [1, 2, 3], .flush true 100, .flush true 200]).snd_buf.map
+    (fun s => (s.xmit, s.ts, s.rto, s.resendts)) = [(1, 200, 200, 400)] := by decide
 
 end KcpVerif.Props
